@@ -1370,6 +1370,18 @@ class Nexus(object):
                 "Cannot add dependency: the following nodes passed to " "`depends_on` do not exist: {}".format(", ".join(map(repr, _not_found)))
             )
 
+        # reject dependencies that would close a cycle before touching the graph
+        for _dep in depends_on:
+            _stack = [self.get(_dep)]
+            _seen = set()
+            while _stack:
+                _n = _stack.pop()
+                if _n is _node:
+                    raise ValueError("Dependent node cycle detected ({} -> {} -> {})".format(_node.name, _dep, _node.name))
+                if _n not in _seen:
+                    _seen.add(_n)
+                    _stack.extend(_n.get_children())
+
         # add dependent node `name` as a parent of each node in `depends_on`
         for _dep in depends_on:
             _node.add_child(self.get(_dep))
